@@ -87,7 +87,9 @@ CaseStart ==
                         /\ bad' =
                            (IF Pc("C01") /\ ~(h.ch = cs.ch /\ h.bps = cs.bps /\ h.rate = cs.rate)
                               THEN {Tag("C01", "STREAMINFO format differs from the source")} ELSE {}) \cup
-                           (IF Pc("C01") /\ ~(h.totHi = 0 /\ h.totLo = cs.n)
+                           \* (a source whose length hint lies - hint_delta # 0, used for cross-path equality only -
+                           \*  decides nothing about the total the stream should state)
+                           (IF Pc("C01") /\ cs.hint_delta = 0 /\ ~(h.totHi = 0 /\ h.totLo = cs.n)
                               THEN {Tag("C01", "stream length differs from the input length")} ELSE {}) \cup
                            (IF Pc("C02") /\ ~(h.type = 0 /\ h.mlen = 34)
                               THEN {Tag("C02", "first metadata block is not a 34-byte STREAMINFO")} ELSE {}) \cup
@@ -97,7 +99,7 @@ CaseStart ==
                               THEN {Tag("C02", "invalid metadata block type 127")} ELSE {}) \cup
                            (IF Pc("C03") /\ ~(h.ch = cs.ch /\ h.bps = cs.bps /\ h.rate = cs.rate)
                               THEN {Tag("C03", "STREAMINFO rate/channels/width differ from the source")} ELSE {}) \cup
-                           (IF Pc("C03") /\ ~(h.totHi = 0 /\ h.totLo = cs.n)
+                           (IF Pc("C03") /\ cs.hint_delta = 0 /\ ~(h.totHi = 0 /\ h.totLo = cs.n)
                               THEN {Tag("C03", "STREAMINFO total samples differ from the samples consumed")} ELSE {}) \cup
                            (IF Pc("C15") THEN
                               (IF cs.p15.parse # "ok" THEN {Tag("C15", "the parser does not accept the emitted stream: " \o cs.p15.parse)} ELSE
